@@ -387,6 +387,11 @@ def run(ctx):
                "reads through db.read_tx()" if ok else "reads the plain keyspace's latest state (%s) instead of a read view: it can observe a commit that is only partly applied" % (bad[0][1] if bad else "no read_tx"),
                fn.loc(bad[0][0]) if bad else "")
 
+    # ---- cross-cutting disciplines (rules/discipline.py)
+    from .. import discipline as D
+    # a failed commit is never acknowledged
+    D.error_discipline(ctx, "R-C07.13", scope=lambda f: f.startswith(("tx::", "<tx::")))
+
     # ---- borrowed obligations (mechanisms owned by other properties that this property's verdict also rests on)
     # the oracle's instants are the visible seqno: nothing publishes past the generator, or the first commit after it is missed by validation
     ctx.borrow("C06", ["R-C06.1", "R-C06.2", "R-C06.3", "R-C06.4"], "R-C07.9")
@@ -395,5 +400,5 @@ def run(ctx):
     # the committed batch is the transaction's final write set
     ctx.borrow("C08", ["R-C08.4"], "R-C07.11")
     # the single-operation helpers really run (and commit) the operation they are named after
-    ctx.borrow("C08", ["R-C08.10"], "R-C07.12", only_instances=["tx::optimistic", "forwarded", "commits"])
+    ctx.borrow("C08", ["R-C08.10"], "R-C07.12", only_instances=["forwarded", "commits", "successful-commit"])
 
